@@ -25,7 +25,8 @@ type misKnobs struct {
 	FaultyAud    bool   `json:"custom_audience_validator_panics_on_unknown_audience,omitempty"` // the application's validator faults (nil dereference) on audiences it does not know: whatever the library makes of that, the assertion was not approved
 	ReceivedAt   string `json:"received_at"`                                                    // "acs" | "acs-query" | "relative" (path-only request URL, as behind a real net/http server)
 	AllowIDP     bool   `json:"allow_idp_initiated"`
-	Rebase       bool   `json:"metadata_url_changes_after_first_use"` // entity ID unset: after the first delivery the application changes MetadataURL (a per-tenant clone of a template SP); the audience follows
+	Fingerprint  bool   `json:"idp_known_by_certificate_fingerprint,omitempty"` // no certificate in the IdP metadata: the SP is configured with the fingerprint of the IdP's certificate
+	Rebase       bool   `json:"metadata_url_changes_after_first_use"`           // entity ID unset: after the first delivery the application changes MetadataURL (a per-tenant clone of a template SP); the audience follows
 	MaxIssueMs   int64  `json:"MaxIssueDelay_ms"`
 	MaxClockSkew int64  `json:"MaxClockSkew_ms"`
 }
@@ -46,6 +47,9 @@ type misStep struct {
 	Decoy string `json:"companion_assertion_for_another_sp,omitempty"`
 	// NoAssertion: the response carries no assertion at all
 	NoAssertion bool `json:"no_assertion,omitempty"`
+	// RespSigNoCert: the certificate is dropped in flight from the KeyInfo of the Response's own signature (KeyInfo is not signed
+	// content); the assertion's signature keeps its certificate. The Response still carries a signature.
+	RespSigNoCert bool `json:"response_signature_keyinfo_without_certificate,omitempty"`
 }
 
 const (
@@ -97,6 +101,7 @@ func genMisroute(g *Rng, tier string) *Plan {
 	k := misKnobs{EntityIDSet: g.Bool(0.5), CustomAud: g.Bool(0.2), ReceivedAt: Pick(g, "acs", "acs", "acs-query", "relative"), AllowIDP: g.Bool(0.2), Rebase: g.Bool(0.15),
 		MaxIssueMs: Pick(g, int64(7000), 90_000), MaxClockSkew: Pick(g, int64(1000), 180_000)}
 	k.FaultyAud = k.CustomAud && g.Bool(0.4)
+	k.Fingerprint = g.Bool(0.15)
 	if k.EntityIDSet && g.Bool(0.35) {
 		k.EntityID = Pick(g, "my-service", "sp.example.com", "sp/prod", "SP 1")
 	}
@@ -248,6 +253,9 @@ func genMisroute(g *Rng, tier string) *Plan {
 				{On: "StatusCode", Prefix: "Value", Value: saml.StatusSuccess}}
 			st.Labels["foreign-ns-attributes"] = "correct"
 		}
+		if spec.Sign && a.Sign && !a.Encrypt && g.Bool(0.15) {
+			st.RespSigNoCert = true
+		}
 		spec.Assertions = []AsrtSpec{a}
 		if !clean && g.Bool(0.06) {
 			// what an IdP sends when it has nothing to assert (usually beside a non-Success status)
@@ -298,11 +306,19 @@ func execMisroute(t *testing.T, p *Plan) *Result {
 	saml.MaxClockSkew = ms(k.MaxClockSkew)
 	installRand(p)
 	idpMD := idpMetadataFor(idpEntity, idpSSO, idpSLO, []KeyPair{rsaKeys[0]}, nil, "signing")
+	if k.Fingerprint {
+		idpMD = idpMetadataFor(idpEntity, idpSSO, idpSLO, nil, nil, "signing")
+	}
 	ent := ""
 	if k.EntityIDSet {
 		ent = firstNonEmpty(k.EntityID, misEntity)
 	}
 	spv := newSP(misSPBase, rsaKeys[1], ent, idpMD)
+	if k.Fingerprint {
+		fp, algo := c01Fingerprint(rsaKeys[0]), c01FPAlgo
+		spv.IDPCertificateFingerprint, spv.IDPCertificateFingerprintAlgorithm = &fp, &algo
+		res.probe("idp-known-by-fingerprint")
+	}
 	myAud := misMetadata
 	if k.EntityIDSet {
 		myAud = firstNonEmpty(k.EntityID, misEntity)
@@ -346,6 +362,16 @@ func execMisroute(t *testing.T, p *Plan) *Result {
 		}
 		t0 := time.Now()
 		respEl := BuildResponseEl(&st.Spec, t0)
+		if st.RespSigNoCert {
+			for _, c := range respEl.ChildElements() {
+				if c.Tag == "Signature" {
+					if ki := c.FindElement("./KeyInfo"); ki != nil {
+						c.RemoveChild(ki)
+					}
+				}
+			}
+			res.probe("response-signature-without-certificate")
+		}
 		var body []byte
 		if st.Entry == "artifact" {
 			var signer *KeyPair
@@ -432,6 +458,9 @@ func execMisroute(t *testing.T, p *Plan) *Result {
 			}
 		case st.Spec.Destination != misACS && st.Spec.Destination != recvAt.String():
 			bad = append(bad, "destination")
+		}
+		if st.RespSigNoCert && k.Fingerprint {
+			dc = true // a signature naming no certificate cannot be matched to a fingerprint: whether such a response gets in on its assertion's signature is open
 		}
 		expect := "ACCEPT"
 		switch {
